@@ -68,6 +68,56 @@ def load_prop(pid):
     return d
 
 
+# ----------------------------------------------------------------------------- source gates
+def _strip_rust_comments(src):
+    """`//` line comments and `/* */` block comments removed (string literals are not parsed: a gate
+    regex is written for item headers - attributes, `impl .. for ..` - where none occur)."""
+    src = re.sub(r'/\*.*?\*/', ' ', src, flags=re.S)
+    return '\n'.join(re.sub(r'//.*$', '', l) for l in src.split('\n'))
+
+
+def check_source_gates(prop):
+    """Fragment key "source_gates": a list of {"file": <path or glob relative to the tree under test>,
+    "must_match": <regex or list>, "must_not_match": <regex or list>, "name": <optional label>,
+    "describe": <optional words for the report instead of the regex>}.  The
+    regexes (re.M | re.S) are evaluated on the comment-stripped text of the file(s) of the tree under
+    test: every must_match regex has to match in at least one of the files, no must_not_match regex may
+    match in any.  One obligation per gate; a failing gate (or a gate whose file is gone) is a broken
+    obligation 'source-gate:...', reported like a broken GenEq lemma.  Returns None without the key."""
+    gates = prop.get('source_gates')
+    if not gates:
+        return None
+    res = {'obligations': len(gates), 'broken': [], 'gates': []}
+    for i, g in enumerate(gates):
+        name = g.get('name') or ('gate%d' % i)
+        pat = g['file']
+        files = sorted(glob.glob(os.path.join(REPO, pat), recursive=True))
+        as_list = lambda v: [] if v is None else ([v] if isinstance(v, str) else list(v))
+        why = []
+        if not files:
+            why.append('no file matches %s in the tree under test' % pat)
+        texts = []
+        for f in files:
+            try:
+                texts.append((os.path.relpath(f, REPO), _strip_rust_comments(open(f, errors='replace').read())))
+            except OSError as ex:
+                why.append('cannot read %s: %s' % (f, ex))
+        for rx in as_list(g.get('must_match')):
+            if texts and not any(re.search(rx, t, re.M | re.S) for _, t in texts):
+                why.append('required pattern not found in %s: %s' % (pat, g.get('describe') or rx))
+        for rx in as_list(g.get('must_not_match')):
+            for rel, t in texts:
+                m = re.search(rx, t, re.M | re.S)
+                if m:
+                    line = t.count('\n', 0, m.start()) + 1
+                    why.append('forbidden pattern found at %s:%d `%s`' % (rel, line, ' '.join(m.group(0).split())[:120]))
+        res['gates'].append({'name': name, 'file': pat, 'files': len(files), 'ok': not why})
+        if why:
+            res['broken'].append('source-gate:%s %s' % (name, '; '.join(why)))
+    return res
+
+
+
 # ----------------------------------------------------------------------------- Coq side
 def coq_gate():
     """Textual gate over the whole development: no Admitted/Axiom/..., Variables only in sections."""
@@ -616,6 +666,15 @@ def run_check(prop, tier, seed, replay):
         broken += psites['broken']
         for b in psites['broken']:
             log('BROKEN OBLIGATION ' + b)
+    # source gates (fragment key "source_gates"): facts about the source text of the tree under test that a
+    # theorem's reading relies on and no kernel regenerates (e.g. a derive list); a failing gate is a broken obligation
+    sgates = check_source_gates(prop)
+    if sgates:
+        obligations += sgates['obligations']
+        discharged += sgates['obligations']
+        broken += sgates['broken']
+        for b in sgates['broken']:
+            log('BROKEN OBLIGATION ' + b)
     # compile-fail corpus (fragment key "borrow_corpus", borrow/README.md): a client program that lets an accessor
     # outlive its owner and COMPILES is a failing input; a program whose outcome is neither is a broken obligation
     borrow = None
@@ -858,6 +917,7 @@ def run_check(prop, tier, seed, replay):
                       'broken': geneq['broken'], 'kernels_regenerated': sum(1 for k in gen_status if k['ok']),
                       'kernels_failed': geneq['kernels_failed']},
             'panic_sites': psites['summary'] if psites else None,
+            'source_gates': sgates['gates'] if sgates else None,
             'checker_cmd': 'make -C coq ' + ' '.join(f[:-2] + '.vo' for f in prop['coq_files']) + ' && coqc work/Assumptions_%s.v' % pid,
             'trusted_base': trusted,
             'theorems': [n for _, n, _ in thms],
